@@ -41,6 +41,15 @@ def _cases(tier, rng):
                                      sizes_pool=(1, 2, 3) if rng.random() < 0.7 else (2, 2, 3))
         yield {"prog": prog, "load_intermediate": rng.random() < 0.6, "rerun": rng.random() < 0.25,
                "storage": rng.choice(("file_array", "file_array", "dict"))}
+    # several outputs without a MapSpec that are plain arrays of different shapes (each needs dimensions of its own)
+    for shapes in (((3, 3), (2, 3)), ((2, 2), (2, 2)), ((2, 3), (3,)), ((1, 2), (2, 1))):
+        prog = {"funcs": [{"name": f"f{k}", "params": [], "outputs": [nm], "spec": None, "internal": shp,
+                           "plain_array": True, "as_list": False} for k, (nm, shp) in enumerate(zip("ab", shapes))]
+                + [{"name": "f2", "params": ["x"], "outputs": ["c"], "internal": None,
+                    "spec": {"inputs": [("x", ("i",))], "outputs": [("c", ("i",))]}}],
+                "inputs": {"x": {"shape": (2,), "kind": "ndarray"}}, "sizes": {"i": 2}}
+        for li in (True, False):
+            yield {"prog": prog, "load_intermediate": li, "rerun": False, "storage": "file_array"}
     # intermediates that are produced by the pipeline itself (generator functions without mapped inputs) and consumed
     # downstream, with and without loading intermediates: such an array is a coordinate only if it may be loaded
     want, tries = (16 if tier == "quick" else 160), 0
